@@ -588,7 +588,12 @@ def _sim_atexit_register(func, *args, **kwargs):
     SIGINT included - and never when it is killed.  (A process shared by several sequential loads does not exit
     within a run.)"""
     sim, a = _actor()
-    if a is None:
+    # only handlers registered BY THE CODE UNDER TEST are the simulated process's own; the standard library registers
+    # interpreter-wide ones lazily (weakref.finalize._exitfunc on the first TemporaryDirectory): those stay real, or the
+    # first loader of a worker would run - and then disable - every pending finalizer of the whole interpreter
+    caller = sys._getframe(1).f_globals.get("__name__", "")
+    if a is None or not (caller == "traffic_weaver" or caller.startswith("traffic_weaver.") or caller == "__main__"
+                         or caller.startswith("selftest")):
         return REAL["atexit.register"](func, *args, **kwargs)
     a.attrs.setdefault("atexit", []).append((func, args, kwargs))
     sim.stats["probe:atexit-registered"] += 1
